@@ -97,8 +97,14 @@ def _run_base(ctx):
                      first_body[0] if first_body else bigif)
         elif ln == rn:
             sn = strategy_names(first_body)
-            ok = set(calls) == {'agreement'} and not sn and ev.truth(ev.ev(arms[first_idx][0])) is UNKNOWN and \
-                isinstance(arms[first_idx][0], ast.Compare) and {dotted(arms[first_idx][0].left), dotted(arms[first_idx][0].comparators[0])} == {d_local, d_remote}
+            t0 = arms[first_idx][0]
+            if isinstance(t0, ast.Compare) and len(t0.ops) == 1 and isinstance(t0.ops[0], ast.Eq):
+                eq_ops = {dotted(t0.left), dotted(t0.comparators[0])}
+            elif isinstance(t0, ast.Call) and isinstance(t0.func, ast.Name) and t0.func.id in mirror.EQUALITY_HELPERS and len(t0.args) == 2:
+                eq_ops = {dotted(t0.args[0]), dotted(t0.args[1])}
+            else:
+                eq_ops = set()
+            ok = set(calls) == {'agreement'} and not sn and ev.truth(ev.ev(t0)) is UNKNOWN and eq_ops == {d_local, d_remote}
             ctx.inst('R05.1', GEN + ':_merge_lists', 'chunktype %r (same ops both sides) -> first reachable arm %s calls %s' % (ct, first_idx, sorted(set(calls))), ok,
                      'identical two-sided changes are tested (d0 == d1 -> agreement) before any conflict-capable arm' if ok else
                      'a conflict-capable arm can run before the identical-change test', first_body[0] if first_body else bigif)
@@ -365,9 +371,42 @@ def mirror_statement_pairs(ctx, rule, only=None):
     return n
 
 
+
+def sides_compared_strictly(ctx, rule):
+    """"Both sides made the same change" must be decided by an equality that tells booleans, integers and floats apart: with
+    Python ==, local changing a value to 1 and remote to True is an agreement and remote's value is silently lost; since the
+    differ does tell them apart, the sanity assertions comparing the two diffs with != fire for similar inserts that differ
+    only in such a value."""
+    repo = ctx.repo
+    n = 0
+    for fid, fn in sorted(repo.functions.items()):
+        if not fid.startswith(('nbdime.merging.generic:', 'nbdime.merging.decisions:')) or '__unused__' in fid:
+            continue
+        names = {x.id for x in ast.walk(fn) if isinstance(x, ast.Name)} | {a.arg for a in fn.args.args}
+        for c in walk_no_nested(fn):
+            if isinstance(c, ast.Compare) and len(c.ops) == 1 and isinstance(c.ops[0], (ast.Eq, ast.NotEq)) and \
+                    isinstance(c.left, ast.Name) and isinstance(c.comparators[0], ast.Name):
+                a, b = c.left.id, c.comparators[0].id
+                if mirror.mirror_name(a) == b and a != b:
+                    if isinstance(repo.stmt_of(c), ast.Assert) and isinstance(c.ops[0], ast.Eq):
+                        continue        # `assert l == r`: a loose comparison only makes the sanity check weaker, it cannot abort or drop anything
+                    n += 1
+                    ctx.inst(rule, fid, repo.norm(c), False,
+                             'the two sides are compared with Python %s: 1, 1.0 and True count as the same change -- an agreement is recorded and one side\'s value lost, '
+                             'or (in an assertion) a legitimate conflict between type-different values aborts the merge' % ('==' if isinstance(c.ops[0], ast.Eq) else '!='), c)
+        for c in calls_in(fn, nested=False):
+            if isinstance(c.func, ast.Name) and c.func.id in ('strict_equal',) and len(c.args) == 2 and all(isinstance(a, ast.Name) for a in c.args) and \
+                    mirror.mirror_name(c.args[0].id) == c.args[1].id:
+                n += 1
+                ctx.inst(rule, fid, repo.norm(c), True, 'type-strict deep comparison of the two sides', c)
+    if n < 4:
+        raise AnalysisError('fewer comparisons between the two sides than expected in the mergers (%d)' % n)
+
 def run(ctx):
+    ctx.rule('R05.6', 'agreement between the two sides is decided by a type-strict comparison (no Python ==/!= between a local/remote pair of diffs or values)', floor=4)
     ctx.rule('R05.5', 'diffs concatenated in role order (local_then_remote) are re-sorted by key before they are applied (C09 R09.8): otherwise which side is called local decides the text', floor=2)
     _run_base(ctx)
     from . import c09
     from ..report import run_sub
     run_sub(ctx, c09, {'R09.8': 'R05.5'})
+    sides_compared_strictly(ctx, 'R05.6')
